@@ -44,6 +44,20 @@ def one_case(rng, res, check_c11=True):
         i = h.verify_impl(scn)
         m = W.norm_model_verify(scn.run_model())
         m["log"] = []
+        honest = m.pop("honest", None)
+        applies = honest is not None
+        res.count("honest_theorem_applies_%s" % applies)
+        if desc["tamper"] in HARMLESS:
+            # an honest history: the hypotheses of the theorem `honest_chain_verifies` must hold on the files in-toto wrote
+            # (the theorem is not vacuous on real data) and its prediction must be what the implementation returns
+            res.evaluations += 1
+            if not applies:
+                res.fail("disagree", {"op": "honest_check", "desc": desc},
+                         {"op": "honest_check", "why": "the hypotheses of honest_chain_verifies do not hold on an honest history"})
+            elif honest["result"] != i.get("result"):
+                res.fail("disagree", {"op": "honest_check", "desc": desc},
+                         {"op": "honest_check", "why": "prediction of honest_chain_verifies differs from the implementation",
+                          "impl": vcommon.short(i), "predicted": honest["result"]})
         i2 = dict(i, payload_after=None); m2 = dict(m, payload_after=None)
         agreed = scen.same_outcome(i2, m2)
         res.case({"desc": desc, "impl": vcommon.short(i), "model": vcommon.short(m)}, True, agreed)
